@@ -47,9 +47,9 @@ def hx(s):
     return s.hex() if s else "-"
 
 
-def fmt_line(style):
+def fmt_line(style, flags=(255, 255)):
     d = STYLES[style]
-    return "p fmt %s 255 255" % ("null" if d is None else hx(d))
+    return "p fmt %s %d %d" % ((("null" if d is None else hx(d)),) + tuple(flags))
 
 
 def forest_text(f):
@@ -109,7 +109,8 @@ def label(shape, names, values, pos):
 
 
 NAMEPATS = [lambda i: b"abcdefgh"[i:i + 1], lambda i: b"a", lambda i: (b"k1", b"Z_")[i % 2],
-            lambda i: (b"9", b"-", b"a-b_c")[i % 3]]
+            lambda i: (b"9", b"-", b"a-b_c")[i % 3],
+            lambda i: (b"\"q'", b"\\", b"a+b", b"\x80\xff", b"\x01~", b"$(x)", b"<:>")[i % 7]]
 VALPATS = [lambda i: (b"1", b"two words", b"x")[i % 3],
            lambda i: (None, b"", b"\"q\" # \\\" '", b"#h")[i % 4],
            lambda i: (b" lead", b"trail ", b"a\nb", b"\\\"", b"\x80\xff=")[i % 5],
@@ -117,11 +118,11 @@ VALPATS = [lambda i: (b"1", b"two words", b"x")[i % 3],
            lambda i: (b" x\\", b"\"\\\\", b"#\\\"\\", b"\\", b"a\\ ")[i % 5]]
 
 
-def assemble(name, style, items, per=10):
+def assemble(name, style, items, per=10, flags=(255, 255)):
     """items: list of (decor, forest text, hex)"""
     out = []
     for i in range(0, len(items), per):
-        lines = [fmt_line(style)]
+        lines = [fmt_line(style, flags)]
         for decor, ft, text in items[i:i + per]:
             lines += ["p root .", "p render %s %d %s %s" % (style, decor, ft, text), "p node"]
         lines.append("p end")
@@ -166,9 +167,51 @@ def _rand_value(r, tier):
     return v
 
 
+NAMEBYTES = bytes(c for c in range(1, 256) if c not in b" \t\n\r\x0b\x0c#=.{}[]|")
+
+
 def _rand_name(r):
     L = r.choice([1, 1, 2, 3, 7, 30, 255, 256, 300]) if r.random() < 0.25 else r.choice([1, 2, 3, 5])
-    return bytes(r.choice(b"abcXYZ019_-") for _ in range(L))
+    pool = r.choice([b"abcXYZ019_-", b"abcXYZ019_-", NAMEBYTES, b"\"'\\+*~^$&@!%/<>():;,?`"])
+    return bytes(r.choice(pool) for _ in range(L))
+
+
+# name restriction words (sections, options) and name alphabets that fit them (mostly)
+FLAGSETS = [((0x7, 0x7), b"abXY01_-"), ((0x2, 0x2), b"abcXYZ012"), ((0x0, 0x0), b"abcXYZ"), ((0x2f, 0x2f), NAMEBYTES),
+            ((0x24, 0x3), b"ab+\x80\x01"), ((0x3, 0x24), b"ab9+\xff"), ((0x10, 0x13), b"ab12"), ((0x3f, 0x0f), NAMEBYTES),
+            ((0x4, 0x6), b"ab-_1")]
+
+
+def flagsets(tier, seed, scale):
+    """forests under restricted name flags: the model driver expects the forest when `Render.forestFits` holds and
+    allows 'error, target unchanged' otherwise"""
+    r = gen.rng(id, tier, seed, "flags")
+    out = []
+    n = (40 if tier == "quick" else 400) * scale
+    for flags, pool in FLAGSETS:
+        for style in STYLES:
+            reqs = []
+            for _ in range(n // 4 + 1):
+                f = _rand_forest(r, "quick", 0, style in ("sep", "bar"))
+
+                def name(word, old):
+                    if r.random() < 0.07:
+                        return old
+                    n_ = bytes(r.choice(pool) for _ in range(r.choice([1, 2, 3, 5])))
+                    if n_[:1].isdigit() and not word & 1 and r.random() < 0.9:
+                        n_ = b"a" + n_[1:]
+                    return n_
+
+                def rename(f):
+                    return [(name(flags[0] if cs else flags[1] if v else flags[0] & flags[1], n_),
+                             (v if v is None or len(v) < 60 else v[:60]) if cs is None else None,
+                             rename(cs) if cs else cs) for n_, v, cs in f]
+                reqs.append((style, r.randrange(NDECOR), forest_text(rename(f))))
+            res = render_all(reqs)
+            items = [(d, f, h) for (s, d, f), (h, adm) in zip(reqs, res) if adm and h]
+            out += assemble("flg:%x:%x" % flags, style, items, 5, flags)
+    return out
+
 
 
 def _rand_forest(r, tier, depth, flat):
@@ -195,6 +238,20 @@ def random_forests(tier, seed, scale):
         res = render_all(reqs)
         items = [(d, f, h) for (s, d, f), (h, adm) in zip(reqs, res) if adm and h]
         out += assemble("rnd", style, items, 4)
+    return out
+
+
+def bigvalues(tier):
+    """values of 65534..65537 bytes (16-bit limits), plain and quoted, in every tier; one script per value"""
+    out = []
+    for L in (65534, 65535, 65536, 65537):
+        for kind, v in (("plain", b"v" * L), ("quoted", b" " + b"q\"" * ((L - 1) // 2) + b"x" * ((L - 1) % 2))):
+            for style in (("brace", "sep") if kind == "plain" else ("brace", "enc", "bar")):
+                f = [(b"k", v, None)] if style != "sep" else [(b"o", b"1", None), (b"s", None, [(b"k", v, None)])]
+                reqs = [(style, 1 if kind == "plain" else 3, forest_text(f))]
+                (h, adm), = render_all(reqs)
+                if h and adm:
+                    out += assemble("big:%d:%s" % (L, kind), style, [(reqs[0][1], reqs[0][2], h)], 1)
     return out
 
 
@@ -462,7 +519,7 @@ def layouts(tier, seed, scale):
 
 def scripts(tier, seed, scale=1):
     return stat_all(exhaustive(tier) + random_forests(tier, seed, scale) + dotted(tier) + onequote(tier, seed)
-                    + layouts(tier, seed, scale))
+                    + layouts(tier, seed, scale) + flagsets(tier, seed, scale) + bigvalues(tier))
 
 
 def nontrivial(script, c_lines):
